@@ -575,6 +575,15 @@ class CompilerPassGenerateCode(CompilerPass):
                 and get_function_name(call.func) in self.data.functions
             ]
             has_early_return = any(True for _ in node.nodes_of_class(nodes.Return))
+            # the body of a loop over a list is reached by 'jal' as well
+            has_list_loop = any(
+                not (
+                    isinstance(loop.iter, nodes.Call)
+                    and isinstance(loop.iter.func, nodes.Name)
+                    and loop.iter.func.name == "range"
+                )
+                for loop in node.nodes_of_class(nodes.For)
+            )
 
             if (
                 isinstance(last_node, nodes.Call)
@@ -583,6 +592,7 @@ class CompilerPassGenerateCode(CompilerPass):
                 and get_function_name(last_node.func) in self.data.functions
                 and not other_calls
                 and not has_early_return
+                and not has_list_loop
             ):
                 ndata = last_node._ndata
                 if isinstance(last_node.func, nodes.Attribute):
